@@ -1202,6 +1202,51 @@ func c13Verify(w *World, r *Report) {
 		}
 	}
 	r.Check(found, "C13-e", fnName(vb), "digest inequality => error", w.relFile(vb.Pos()), "", "verifyBlockCopy does not turn a digest mismatch into an error")
+	// the comparison covers all of expectedSize: a chunk count obtained by dividing it must account for the remainder
+	// (rounded up, or the remainder taken with %), otherwise a difference in the last partial chunk is never seen
+	var exp *ssa.Parameter
+	for _, p := range vb.Params {
+		if p.Name() == "expectedSize" {
+			exp = p
+		}
+	}
+	nq, badq := 0, ""
+	if exp != nil {
+		allInstrs(vb, func(ins ssa.Instruction) {
+			q, ok := ins.(*ssa.BinOp)
+			if !ok || q.Op != token.QUO {
+				return
+			}
+			dep := false
+			for _, rt := range w.prov(q.X, provOpts{}).Roots {
+				if rt.Kind == RParam && rt.Param == exp {
+					dep = true
+				}
+			}
+			if !dep {
+				return
+			}
+			nq++
+			if quotRounding(q) == "ceil" {
+				return
+			}
+			rem := false
+			allInstrs(vb, func(j ssa.Instruction) {
+				if m, ok := j.(*ssa.BinOp); ok && m.Op == token.REM {
+					for _, rt := range w.prov(m.X, provOpts{}).Roots {
+						if rt.Kind == RParam && rt.Param == exp {
+							rem = true
+						}
+					}
+				}
+			})
+			if !rem {
+				badq = w.relFile(q.Pos())
+			}
+		})
+	}
+	r.Check(badq == "", "C13-e", fnName(vb), "comparison covers the whole expected size", w.relFile(vb.Pos()), fmt.Sprintf("%d divisions of expectedSize", nq),
+		"expectedSize is divided into whole chunks at "+badq+" and the remainder is neither rounded up nor handled with %: the last partial chunk of the copy is never compared")
 	cp := w.FuncOpt("sync", "CopyPartitionRaw")
 	if cp == nil {
 		fatalf("C13-e: sync.CopyPartitionRaw not found")
